@@ -104,6 +104,9 @@ def run(ctx):
         for k in ks:
             docs.append(dict(base, **{f: k}))
     docs += [dict(base, w='list'), dict(base, w='scalar')]
+    # documents that give as little as possible, in already-canonical form (strings only): every default must still be filled in
+    mini = dict(base, i='absent', b='absent', l='absent', o='absent')
+    docs += [dict(mini), dict(mini, s='numstr'), dict(mini, o='min'), dict(mini, o='full'), dict(mini, l='empty'), dict(mini, b='true'), dict(mini, i='num')]
     # the schema without properties: the empty map, one surplus key of each kind, and non-map documents
     ebase = {'s': 'absent', 'i': 'absent', 'b': 'absent', 'l': 'absent', 'o': 'absent', 'x': 'absent', 'w': 'map', 'schema': 'empty'}
     docs += [dict(ebase), dict(ebase, x='present'), dict(ebase, s='str'), dict(ebase, i='num'), dict(ebase, l='nums'), dict(ebase, o='min'),
